@@ -225,10 +225,18 @@ fn generate_full(seed: u64, lite: bool) -> Plan {
     // after hundreds of displays on one thread needs it
     let long = !lite && r.chance(1, 250);
     let n_threads = if long { 1 + r.below(2) } else { n_threads };
+    // now and then a throng: 48-111 caller threads with one or two displays each and a
+    // schedule that picks among all of them at every seam, so that dozens of displays
+    // are in flight at once (a bounded pool of buffers or slots runs dry only then: S52)
+    // (not in the instrumented configuration: with a seam at every function entry a hundred parked
+    // threads make the harness itself so slow that its no-progress limit trips - a false alarm
+    // of the harness seen once on the unchanged tree, C17 f64-fnseam, and removed this way)
+    let throng = !lite && !long && r.chance(1, 1500) && !cfg!(feature = "fn-seam");
+    let n_threads = if throng { 48 + r.below(64) } else { n_threads };
     let mut threads = Vec::new();
     let mut pool = Vec::new();
     for _ in 0..n_threads {
-        let n_ops = if long { 260 + r.below(300) } else { 1 + r.below(5) };
+        let n_ops = if long { 260 + r.below(300) } else if throng { 1 + r.below(2) } else { 1 + r.below(5) };
         let mut ops = Vec::new();
         for _ in 0..n_ops {
             let (what, spec) = gen_what(&mut r, &types, &mut pool);
@@ -258,7 +266,15 @@ fn generate_full(seed: u64, lite: bool) -> Plan {
     }
     let n_sched = 8 + r.below(56);
     let sched = (0..n_sched)
-        .map(|_| if !swarm.switches || r.chance(1, 2) { 0 } else { 1 + r.below(8) as u8 })
+        .map(|_| {
+            if throng {
+                1 + r.below(255) as u8
+            } else if !swarm.switches || r.chance(1, 2) {
+                0
+            } else {
+                1 + r.below(8) as u8
+            }
+        })
         .collect();
     let alloc_seams = n_threads > 1 && r.chance(1, 2);
     Plan { seed, backend: amt::BACKEND.to_string(), threads, sched, alloc_seams, lean: false, repeat: 0 }
